@@ -37,6 +37,9 @@ type c19Case struct {
 	// ResendRefuse (with Resend): 1 = an application handler refuses every retransmission, 2 = the store refuses to
 	// save them again; afterwards the application sends once more: "a refusal stops that message only"
 	ResendRefuse int `json:"resend_refuse,omitempty"`
+	// ErrHook: the application's error callback reacts through the session (it sends a message of its own): whenever
+	// the library calls it, it must be able to do so
+	ErrHook bool `json:"err_hook,omitempty"`
 	// Final: after the sends the session itself sends a Logout ("logout" = Session.Logout, "stop" =
 	// Session.Stop).  FailAt 4 makes the store refuse exactly that message; RefuseFinal registers a handler
 	// for the Logout type that refuses it.  Either way it must not be transmitted.
@@ -278,6 +281,15 @@ func c19Run(c c19Case) (string, string) {
 				register(i, k)
 			}
 		}
+	}
+	if c.ErrHook {
+		nested := 0
+		w.s.OnError(func(e error) {
+			if nested == 0 {
+				nested++
+				_ = w.s.Send(fixgen.NewMarketDataRequest().SetMDReqID("from-the-error-callback"))
+			}
+		})
 	}
 	refusing := false
 	if c.ResendRefuse == 1 {
@@ -606,6 +618,9 @@ func runC19(R *vlib.Out) {
 			for _, mt := range []string{"0", "V"} {
 				for failAt := 0; failAt <= 3; failAt++ {
 					for refuse := 0; refuse < 1<<len(o); refuse++ {
+						if failAt > 0 && refuse == 0 && !try(c19Case{Role: role, FailAt: failAt, Order: o, MsgType: mt, ErrHook: true}) {
+							return
+						}
 						if !try(c19Case{Role: role, FailAt: failAt, Order: o, Refuse: refuse, MsgType: mt}) {
 							return
 						}
